@@ -143,6 +143,18 @@ CHECKS["C18"] = dict(
    note=TB + "Allocations inside zlib/zstd/snappy and mmap are not failed; single-threaded; LKCD/SADUMP open findings are recorded in KNOWN_FINDINGS "
         "(they need the repository's own tests/out dumps to show up).",
    technique="Lean 4 proof (ledger model, all fault points) + systematic n-th-allocation fault enumeration", design="§6 C18")
+CHECKS["C04"] = dict(
+   text="Lean proofs on top of the proved C06 cache model: cache_transparent / history_irrelevant (for the composition of the cache with any deterministic "
+        "fill function, after ANY history a get/fill/insert for key k yields f k, or busy exactly when the C06 busy rule says so), reads_only_transparent, "
+        "zero_excluded_transparent, readcache_transparent (addrxlat's 4-slot MRU read cache), lastload_irrelevant (ELF last-segment shortcut, tied to the "
+        "code's loads_disjoint flag), lkcd_history (the answer for frame p is the first descriptor for p whatever prefix has been scanned), "
+        "policy_irrelevant (mmap vs read below EOF). Tie and property evaluation: long random histories (reads in every address space, page-map queries, "
+        "attribute gets, cache.size / mmap policy / zero_excluded changes) on one context over generated diskdump, LKCD (unordered, gaps, duplicates, "
+        "far-off frames) and ELF dumps; every observed call is repeated on a freshly opened context and must give the same status, length and bytes; the "
+        "model also predicts the real cache.hits/cache.misses after every read.",
+   note=TB + "LKCD block lists are tied by the differential stream only; SADUMP, s390 and Xen are not exercised here; KVADDR through page tables is "
+        "exercised on the implementation only. Findings recorded: cache-resize-uaf, small-cache-busy, mmap-policy-eof.",
+   technique="Lean 4 proof (cache transparency over all histories) + metamorphic fresh-context oracle", design="§6 C04")
 NOT_YET = {}
 
 def main():
